@@ -73,7 +73,7 @@ public:
         _SHIFTS=i;
         _sBASE = Ints(1); _sBASE <<=_SHIFTS;
         _sMASK = _sBASE - 1;
-        return _sMAXN = _sBASE / _epmunsq;
+        return _sMAXN = (_sBASE - 1) / _epmunsq;
     }
 
         // Set maxn, returns shifts
@@ -81,7 +81,7 @@ public:
         _sMAXN = n;
         Ints m = _sMAXN * _epmunsq;
         _SHIFTS = 0;
-        for(_sBASE = 1; _sBASE < m; ++_SHIFTS, _sBASE<<=1);
+        for(_sBASE = 1; _sBASE <= m; ++_SHIFTS, _sBASE<<=1);
         _sMASK = _sBASE - 1;
         return _SHIFTS;
     }
